@@ -132,6 +132,19 @@ void c07_run(Tape& t, Ctx& ctx, Opt& opt, const TM& tm, const Problem& p, unsign
   if (ctx.want_desc) ctx.desc << "\"order\": \"" << oname() << "\", \"dim\": " << D << ", \"N\": " << N << ", \"K\": " << K << ", \"maps\": \"" << mapname << "\", \"flags\": \"" << flags_str(flagbits) << "\", \"rho\": " << g6(rho_eff) << ", \"t0\": " << g17(p.t0) << ", \"x_dim\": " << n;
   typename Opt::Workspace ws;
   Eigen::VectorXd g;
+  // a quarter of the cases: the same optimizer and workspace have just evaluated the SAME vector for a problem that differs only in
+  // data that are not decision variables (fixed end points, fixed boundary derivatives); nothing of that may survive
+  if (t.chance(1, 4)) {
+    Problem p2 = p;
+    for (int d = 0; d < D; ++d) { p2.P(0, d) += 0.5; p2.P(N, d) -= 0.25; }
+    for (int e = 0; e < 2; ++e) for (int m = 1; m <= 3; ++m) for (int d = 0; d < D; ++d) bcf(p2.bc, e == 1, m)(d) += 0.25;
+    if (opt.setInitState(p2.T, p2.P, p2.t0, p2.bc)) {
+      Eigen::VectorXd gtmp;
+      (void)opt.evaluate(x, gtmp, costs.tc, costs.wc, costs.rc, &ws);
+      ctx.label("history:same-vector-evaluated-for-another-problem");
+    }
+    VCHECK(ctx, opt.setInitState(p.T, p.P, p.t0, p.bc), "init-rejected", "valid problem rejected on re-initialisation");
+  }
   double c0 = opt.evaluate(x, g, costs.tc, costs.wc, costs.rc, &ws);
   VCHECK(ctx, g.size() == n && std::isfinite(c0), "evaluate", who << ": cost " << g17(c0) << " / gradient size " << g.size());
   // magnitude of the cost's pieces (for the rounding-noise term of the finite-difference oracle)
@@ -382,12 +395,19 @@ void c08_run(Tape& t, Ctx& ctx, Opt& opt, const TM& tm, const SM* sm, const Prob
   double rho = t.flag() ? 0.0 : std::exp2(t.sym(3));
   static const int Ks[] = {1, 2, 3, 4, 5, 7, 8, 16, 33, 64};
   int K = Ks[t.range(0, 9)];
+  if (t.chance(1, 3)) K = t.range(1, 256);   // "every K >= 1": a third of the cases draw the resolution uniformly from 1..256
   double sig = std::exp((std::log(*std::min_element(p.T.begin(), p.T.end())) + std::log(*std::max_element(p.T.begin(), p.T.end()))) / 2);
   Costs costs = gen_costs(t, sig);
   costs.wc.ref = p.P.template cast<double>();   // reference waypoints of the linear-deviation term
   double rho_eff = rho * std::pow(sig, 2 * S - 1) / 64.0;
   configure(opt, p, flagbits, rho_eff, K);
-  Eigen::VectorXd x = gen_x(t, opt, tm, N);
+  // a quarter of the cases work through a copy of the configured optimizer (copy-constructed or assigned over a differently configured one)
+  Opt cp_ctor(opt), cp_asg;
+  cp_asg.setIntegralNumSteps(K == 7 ? 9 : 7); cp_asg = opt;
+  int which_obj = t.pickw({6, 1, 1});
+  Opt& o = which_obj == 0 ? opt : (which_obj == 1 ? cp_ctor : cp_asg);
+  if (which_obj) ctx.label(which_obj == 1 ? "object:copy-constructed" : "object:assigned");
+  Eigen::VectorXd x = gen_x(t, o, tm, N);
   // "every decision vector": one or all time variables decode to a duration far below what a reference problem may contain
   if (t.chance(1, 8)) {
     static const double kTiny[] = {4e-4, 1e-4, 2e-5};
@@ -415,8 +435,8 @@ void c08_run(Tape& t, Ctx& ctx, Opt& opt, const TM& tm, const SM* sm, const Prob
     Eigen::VectorXd xo = other.generateInitialGuess(), go;
     if constexpr (std::is_same<typename Opt::Workspace, typename OptD::Workspace>::value) { other.evaluate(xo, go, costs.tc, costs.wc, costs.rc, &ws); ctx.label("workspace:reused-from-other-problem"); }
   }
-  double cost = opt.evaluate(x, g, rec.tc, rec.wc, rec.rc, own_ws ? &ws : nullptr);
-  const Spline& sp = own_ws ? ws.spline : *opt.getOptimalSpline();
+  double cost = o.evaluate(x, g, rec.tc, rec.wc, rec.rc, own_ws ? &ws : nullptr);
+  const Spline& sp = own_ws ? ws.spline : *o.getOptimalSpline();
   // decoded problem as the optimizer's workspace spline reports it (C09 vouches for the decode itself)
   std::vector<double> T = sp.getTimeSegments();
   // waypoints and boundary state decoded independently from the decision vector by the documented layout
@@ -501,25 +521,25 @@ void c08_run(Tape& t, Ctx& ctx, Opt& opt, const TM& tm, const SM* sm, const Prob
     Costs zero_w = costs; zero_w.wc = WaypointCostP<D>();
     Eigen::VectorXd ga, gb;
     typename Opt::Workspace w1, w2;
-    double ca = opt.evaluate(x, ga, costs.tc, costs.rc, &w1);
-    double cb = opt.evaluate(x, gb, zero_w.tc, zero_w.wc, zero_w.rc, &w2);
+    double ca = o.evaluate(x, ga, costs.tc, costs.rc, &w1);
+    double cb = o.evaluate(x, gb, zero_w.tc, zero_w.wc, zero_w.rc, &w2);
     VCHECK(ctx, same_val(ca, cb) && vec_same_bits(ga, gb), "two-cost-overload", who << ": the two-cost overload (" << g17(ca) << ") differs from the three-cost overload with a zero waypoint cost (" << g17(cb) << ")");
   }
   // ---- trapezoid weights: c == 1 integrates to sum T; c = t_global integrates exactly (linear), both independent of K
   {
     Costs one; one.rc.cst = 1.0;
     Costs lin; lin.rc.lin_t = 1.0;
-    opt.setEnergyWeights(0.0);
+    o.setEnergyWeights(0.0);
     Eigen::VectorXd gg;
     typename Opt::Workspace w3;
-    double c1 = opt.evaluate(x, gg, one.tc, one.rc, &w3);
+    double c1 = o.evaluate(x, gg, one.tc, one.rc, &w3);
     ld sumT = 0; for (int i = 0; i < N; ++i) sumT += (ld)T[i];
     VCHECK(ctx, fabsl((ld)c1 - sumT) <= 64 * (ld)DBL_EPSILON * sumT * (K + 2), "trapezoid-weights", who << ": integrating the constant 1 gives " << g17(c1) << " instead of the total duration " << lg(sumT));
-    double c2 = opt.evaluate(x, gg, lin.tc, lin.rc, &w3);
+    double c2 = o.evaluate(x, gg, lin.tc, lin.rc, &w3);
     ld exact = 0; for (int i = 0; i < N; ++i) exact += (ld)T[i] * ((ld)p.t0 + elapsed[i] + (ld)T[i] / 2);
     ld mag = 0; for (int i = 0; i < N; ++i) mag += (ld)T[i] * (fabsl((ld)p.t0) + elapsed[i] + (ld)T[i]);
     VCHECK(ctx, fabsl((ld)c2 - exact) <= 64 * (ld)DBL_EPSILON * mag * (K + 2), "trapezoid-weights", who << ": integrating t_global gives " << g17(c2) << " instead of " << lg(exact) << " (the trapezoid rule is exact for a linear integrand)");
-    opt.setEnergyWeights(rho_eff);
+    o.setEnergyWeights(rho_eff);
   }
 }
 
